@@ -13,6 +13,10 @@ N3  Copy propagation of a local that names an *immutable coordinate of a token*:
     attributes read through that name is a NamedTuple (structural typing: the value cannot be anything mutable), and every
     use comes after the binding.
 
+N4  Copy propagation of a local bound once to an *access path* (`ch = state.line[state.pos]`, `rest = state.line[state.pos:]`):
+    the uses are replaced by the path when every use is reached, in program order within the block of the binding, before any
+    statement that stores to something the path reads or makes a call (calls may change the state objects).
+
 Line numbers of the surviving nodes are untouched, so reports still point at the source."""
 from __future__ import annotations
 
@@ -238,5 +242,160 @@ def normalise(mod: ast.Module, newtypes: set[str], fields: dict) -> ast.Module:
         for n in ast.walk(mod):
             if isinstance(n, (ast.FunctionDef, ast.AsyncFunctionDef)):
                 _copy_propagate(n, fields)
+    for n in ast.walk(mod):
+        if isinstance(n, (ast.FunctionDef, ast.AsyncFunctionDef)):
+            _propagate_paths(n)
     ast.fix_missing_locations(mod)
     return mod
+
+
+# ----------------------------------------------------------------------------------------------------------------- N4
+PURE_CALLS = {"len", "isinstance", "bool", "int", "str", "min", "max", "abs"}
+
+
+def _access_path(e: ast.expr) -> bool:
+    """name(.attr | [simple index or slice])+ — a read of existing state, nothing computed."""
+    def simple(x):
+        return x is None or isinstance(x, ast.Constant) or _access_path(x) or isinstance(x, ast.Name) or \
+            (isinstance(x, ast.UnaryOp) and isinstance(x.op, ast.USub) and isinstance(x.operand, ast.Constant))
+    steps = 0
+    while True:
+        if isinstance(e, ast.Attribute):
+            e = e.value
+        elif isinstance(e, ast.Subscript):
+            sl = e.slice
+            if isinstance(sl, ast.Slice):
+                if not (simple(sl.lower) and simple(sl.upper) and sl.step is None):
+                    return False
+            elif not simple(sl):
+                return False
+            e = e.value
+        else:
+            break
+        steps += 1
+    return steps > 0 and isinstance(e, ast.Name)
+
+
+def _reads(e: ast.expr) -> set[str]:
+    """Access paths (as dotted text) and names an expression reads."""
+    out = set()
+    for n in ast.walk(e):
+        if isinstance(n, ast.Name):
+            out.add(n.id)
+        elif isinstance(n, ast.Attribute):
+            try:
+                out.add(ast.unparse(n))
+            except Exception:
+                pass
+    return out
+
+
+def _writes_or_calls(st: ast.AST, reads: set[str]) -> bool:
+    """May executing `st` change anything in `reads`?  Any call (other than a few pure builtins) may."""
+    roots = {r.split(".")[0] for r in reads}
+    for n in ast.walk(st):
+        if isinstance(n, ast.Call):
+            f = n.func
+            if not (isinstance(f, ast.Name) and f.id in PURE_CALLS):
+                return True
+        if isinstance(n, (ast.Yield, ast.YieldFrom, ast.Await)):
+            return True
+        if isinstance(n, (ast.Name, ast.Attribute, ast.Subscript)) and isinstance(getattr(n, "ctx", None), (ast.Store, ast.Del)):
+            base = n
+            while isinstance(base, (ast.Attribute, ast.Subscript)):
+                base = base.value
+            if isinstance(base, ast.Name) and base.id in roots:
+                return True
+    return False
+
+
+def _propagate_paths(fn) -> None:
+    """N4: a local bound once to an access path and used only while nothing it reads can have changed is that access path."""
+    stores: dict[str, int] = {}
+    for n in _own(fn):
+        if isinstance(n, ast.Name) and isinstance(n.ctx, (ast.Store, ast.Del)):
+            stores[n.id] = stores.get(n.id, 0) + 1
+    params = {a.arg for a in fn.args.posonlyargs + fn.args.args + fn.args.kwonlyargs}
+    nested = {n.id for d in _own(fn) if isinstance(d, (ast.FunctionDef, ast.AsyncFunctionDef, ast.Lambda)) for n in ast.walk(d)
+              if isinstance(n, ast.Name)}
+    changed = True
+    while changed:
+        changed = False
+        for seq in list(_blocks(fn)):
+            for i, st in enumerate(seq):
+                if not (isinstance(st, ast.Assign) and len(st.targets) == 1 and isinstance(st.targets[0], ast.Name)):
+                    continue
+                name = st.targets[0].id
+                if stores.get(name) != 1 or name in params or name in nested or not _access_path(st.value):
+                    continue
+                reads = _reads(st.value)
+                if name in reads:
+                    continue
+                uses_all = [n for n in _own(fn) if isinstance(n, ast.Name) and n.id == name and isinstance(n.ctx, ast.Load)]
+                if not uses_all:
+                    continue
+                # walk the rest of the block in order; every use must be met before anything can disturb the reads
+                seen: list = []
+                ok = True
+
+                def scan(stmts) -> bool:
+                    """returns True if clean at the end"""
+                    nonlocal ok
+                    clean = True
+                    for s in stmts:
+                        if isinstance(s, ast.If):
+                            us = [n for n in ast.walk(s.test) if isinstance(n, ast.Name) and n.id == name]
+                            if us and not clean:
+                                ok = False
+                            seen.extend(us)
+                            if _writes_or_calls(s.test, reads):
+                                clean_t = False
+                            else:
+                                clean_t = clean
+                            a = scan_from(s.body, clean_t)
+                            b = scan_from(s.orelse, clean_t)
+                            clean = a and b
+                        elif isinstance(s, (ast.For, ast.While, ast.Try, ast.With, ast.Match, ast.AsyncFor, ast.AsyncWith)):
+                            us = [n for n in ast.walk(s) if isinstance(n, ast.Name) and n.id == name and isinstance(n.ctx, ast.Load)]
+                            dirty_inside = _writes_or_calls(s, reads)
+                            if us and (not clean or dirty_inside):
+                                ok = False
+                            seen.extend(us)
+                            clean = clean and not dirty_inside
+                        else:
+                            us = [n for n in ast.walk(s) if isinstance(n, ast.Name) and n.id == name and isinstance(n.ctx, ast.Load)]
+                            if us and not clean:
+                                ok = False
+                            seen.extend(us)
+                            if _writes_or_calls(s, reads):
+                                # the statement's own reads of the local happen before its effects only for plain
+                                # expression evaluation order; be strict: a statement that both uses and disturbs is refused
+                                # unless the disturbance is the statement's final store (x = f(local) is fine for reads of local)
+                                if us and any(isinstance(c, ast.Call) and not (isinstance(c.func, ast.Name) and c.func.id in PURE_CALLS)
+                                              and not any(u is a0 or any(u is w for w in ast.walk(a0)) for u in us for a0 in
+                                                          ([c.func.value] if isinstance(c.func, ast.Attribute) else []) + list(c.args))
+                                              for c in ast.walk(s)):
+                                    ok = False
+                                clean = False
+                    return clean
+
+                def scan_from(stmts, clean0) -> bool:
+                    if clean0:
+                        return scan(stmts)
+                    # already dirty: any use inside is fatal
+                    nonlocal ok
+                    us = [n for s in stmts for n in ast.walk(s) if isinstance(n, ast.Name) and n.id == name and isinstance(n.ctx, ast.Load)]
+                    if us:
+                        ok = False
+                    seen.extend(us)
+                    return False
+
+                scan(seq[i + 1:])
+                if not ok or len(seen) != len(uses_all) or {id(u) for u in seen} != {id(u) for u in uses_all}:
+                    continue
+                _replace(fn, name, st)
+                stores.pop(name, None)
+                changed = True
+                break
+            if changed:
+                break
